@@ -274,11 +274,14 @@ func lawsFS14(s sink, c case14, d *docCtx14) (string, bool) {
 		return e
 	})
 	if cls == ClsPanic {
-		s.Violation(OracleViolation{Law: "no_panic", Class: "C14/panic-fieldspec:" + strings.ReplaceAll(c14FirstN(msg, 50), " ", "_"),
-			Detail: "fieldspec.Filter panics: " + msg, Replay: c})
+		class := "C14/panic-fieldspec:" + strings.ReplaceAll(c14FirstN(msg, 50), " ", "_")
+		s.Violation(OracleViolation{Law: "no_panic", Class: class, Detail: "fieldspec.Filter panics: " + msg, Replay: c})
 		return cls, false
 	}
 	checkWellFormed14(s, c, cls, doc)
+	if orig.YNode().Kind == kyaml.SequenceNode {
+		return cls, len(rec) > 0 // the GVK / frame / denotes oracles are about mapping objects
+	}
 	matches := fsMatchesGVK14(c.FS, orig)
 	if !matches {
 		// fs_apply_gvk_mismatch: the object is returned untouched and SetValue is never invoked
@@ -347,12 +350,12 @@ func lawsFSSlice14(s sink, c case14, d *docCtx14) (string, bool) {
 		return e
 	})
 	if cls == ClsPanic {
-		s.Violation(OracleViolation{Law: "no_panic", Class: "C14/panic-fieldspec:" + strings.ReplaceAll(c14FirstN(msg, 50), " ", "_"),
-			Detail: "fsslice.Filter panics: " + msg, Replay: c})
+		class := "C14/panic-fieldspec:" + strings.ReplaceAll(c14FirstN(msg, 50), " ", "_")
+		s.Violation(OracleViolation{Law: "no_panic", Class: class, Detail: "fsslice.Filter panics: " + msg, Replay: c})
 		return cls, false
 	}
 	checkWellFormed14(s, c, cls, doc)
-	if cls != ClsOk {
+	if cls != ClsOk || orig.YNode().Kind == kyaml.SequenceNode {
 		return cls, false
 	}
 	paths := [][]string{}
@@ -418,7 +421,7 @@ func fsMatchesGVK14(f *fsSpec, obj *kyaml.RNode) bool {
 
 // ---------- generators ----------
 
-var fsKeys = []string{"a", "b", "c", "name", "x/y"}
+var fsKeys = []string{"a", "b", "c", "name", "x/y", "x/y/z", "e.com/t/o"}
 var fsScalars = []string{"x", "y", "1", "null", "~", `""`, "true"}
 
 func genFSNode14(g *Rng, depth int) *gnode {
@@ -542,7 +545,7 @@ func genFSObjNode14(g *Rng) *gnode {
 	return m
 }
 
-var fsSegs = []string{"a", "b", "c", "name", "a", "b", `x\/y`, "a[]", "b[]", "c[]"}
+var fsSegs = []string{"a", "b", "c", "name", "a", "b", `x\/y`, `x\/y\/z`, `e.com\/t\/o`, "a[]", "b[]", "c[]"}
 var fsOddSegs = []string{"0", "1", "-", "*", "[name=x]", "", " a ", "a[][]", "[]", `a\`, "+1", "[=x]", "a ", "-1"}
 
 func genFSPath14(g *Rng) string {
@@ -570,6 +573,19 @@ func genFSCase14(g *Rng) case14 {
 	doc := "{}\n"
 	if len(root.keys) > 0 {
 		doc = root.yaml()
+	}
+	if g.Chance(6) {
+		// a sequence as the object: isMatchGVK reads its Content pairwise (and runs off an odd one)
+		sq := &gnode{kind: 2}
+		for n := g.Intn(5); n > 0; n-- {
+			if g.Chance(45) {
+				sq.vals = append(sq.vals, &gnode{kind: 0, text: g.Pick([]string{"kind", "apiVersion", "Deployment", "apps/v1", "a"})})
+			} else {
+				sq.vals = append(sq.vals, genFSNode14(g, 2))
+			}
+		}
+		root = sq
+		doc = sq.yaml()
 	}
 	f := &fsSpec{Path: genFSPath14(g), Create: g.Chance(50)}
 	if g.Chance(65) {
